@@ -42,7 +42,7 @@ type simProc struct {
 	unlockAt  time.Time
 	kills     int
 	byInc     int
-	obligFrom time.Time // see killObligation
+	obligFrom time.Time // since when the dispatcher owes this process a kill (see afterStep)
 }
 
 type simVM struct {
